@@ -182,3 +182,43 @@ pub fn c01_ra_range() {
     assert!(d1 >= 0.9 && d1 <= 3.1, "C01/C13 two-day right-ascension motion stays between 0.9 and 3.1 degrees (no 360-degree jump)");
     assert!(d2 >= -1.1 && d2 <= 1.1, "C01/C13 second difference of right ascension is small (no 360-degree jump)");
 }
+
+// =====================================================================================
+// C06 — the validity guard
+#[kani::proof]
+pub fn c06_within_abs_1() {
+    let v: f64 = kani::any();
+    crate::vcover!();
+    let r = within_abs_1(v);
+    assert!(r == (v >= -1. && v <= 1.), "C06 the domain guard accepts exactly [-1,1] (and rejects NaN)");
+    kani::cover!(v.is_nan(), "VACUITY-GUARD NaN reachable");
+}
+
+// C07 — hour_to_time never panics and its loop terminates, for every finite hour in
+// [-96,120], every key, every mode and every offset in [-1500,1500] minutes
+#[kani::proof]
+#[kani::unwind(8)]
+pub fn c07_hour_to_time_no_panic() {
+    let hour = any_f64_in(-70., 95.);
+    let off = any_f64_in(-1500., 1500.);
+    let prayer = crate::verif_kani::any_prayer7();
+    let mode = match kani::any::<u8>() % 4 {
+        0 => RoundSeconds::None,
+        1 => RoundSeconds::NormalRounding,
+        2 => RoundSeconds::SpecialRounding,
+        _ => RoundSeconds::AggressiveRounding,
+    };
+    crate::vcover!();
+    let p = mk_params(mode, prayer, off);
+    let t = hour_to_time(&p, prayer, hour);
+    assert!(t.num_seconds_from_midnight() < 86400, "C07 hour_to_time yields a time of day");
+}
+/// NaN hour (never produced by a guarded acos; recorded as explicit behaviour): no panic
+#[kani::proof]
+#[kani::unwind(8)]
+pub fn c07_hour_to_time_nan() {
+    let p = mk_params(RoundSeconds::SpecialRounding, Prayer::Fajr, 0.);
+    crate::vcover!();
+    let t = hour_to_time(&p, Prayer::Fajr, f64::NAN);
+    assert!(t.num_seconds_from_midnight() == 0, "C07 a NaN hour is rendered as 00:00:00 without panicking");
+}
